@@ -3,8 +3,8 @@
 Metamorphic correspondence (needs no oracle, so arbitrary non-exact floats are
 used): for every geometry kind a random base array / frame *without* inert rows
 is built and every operation named by the property is computed; then inert rows
-(missing `None`, empty `[]`, `[[]]`-style empties, NaN-only and inf-only
-elements) are inserted (first, last, a whole R-tree page, a whole Dask partition,
+(missing `None`, empty `[]`, `[[]]`-style empties, NaN-only, inf-only and
+mixed NaN / +inf / -inf elements: for points every mixture per coordinate) are inserted (first, last, a whole R-tree page, a whole Dask partition,
 interleaved, random positions, all rows) and the operation is recomputed:
 
   (i)  inert rows: NaN bounds, NaN measures when missing (0 when empty), predicate
@@ -60,6 +60,8 @@ RT_TY = 'nat * list (list (option Z)) * list nat * list nat * nat * list (list Z
 RT_RES = 'list (list nat * list nat * list nat) * bool'
 
 KNOWN_INF_POLYGON = 'inf-only-polygon-intersects-points'
+# classes of inert polygons with infinite vertices (all infinite / infinite next to NaN)
+INF_CLASSES = ('inf', 'mixed')
 BASE_LABEL = 100
 INERT_LABEL = 9000
 
@@ -291,6 +293,15 @@ def fam_point_rows(cx):
                     'an inert point intersects a shape', shape=[skind, sel], row=hit[0])
         if bv.any():
             cx.rep.count('pt-intersects:hit')
+        # scalar form: the inert (not missing) point taken out of the array
+        for i in t.inert[:12]:
+            if t.cls[i] == 'missing':
+                continue
+            ok, r = cx.guard(f'scalar-intersects:{skind}', lambda: F[i].intersects(s))
+            if ok and bool(r):
+                cx.fail(f'inert-true:scalar-intersects:{skind}:{t.cls[i]}',
+                        'an inert point, as a scalar, intersects a shape', shape=[skind, sel], row=i)
+                break
         # inds form
         if len(t.base):
             inds_b = np.array(P['inds'], dtype='int64') % len(t.base)
@@ -326,9 +337,12 @@ def fam_inert_shapes(cx):
         if t.kind != 'ring':
             ok, r = cx.guard(f'intersects:{t.kind}', lambda: np.asarray(probe.intersects(s)))
             if ok and r.any():
-                if t.kind in ('polygon', 'multipolygon') and t.cls[i] == 'inf':
+                if t.kind in ('polygon', 'multipolygon') and t.cls[i] in INF_CLASSES:
+                    # 'mixed' (NaN next to +-inf vertices) is the same recorded behaviour: the
+                    # ray test of point_intersects_polygon against infinite vertices
                     cx.fail(KNOWN_INF_POLYGON, 'a point intersects a polygon / multipolygon '
-                            'whose coordinates are all infinite', row=i)
+                            'without any finite coordinate (infinite' +
+                            (' and NaN' if t.cls[i] == 'mixed' else '') + ' vertices)', row=i)
                 else:
                     cx.fail(f'inert-shape-true:intersects:{_inert_tag(t, i)}',
                             'a point intersects an inert shape', row=i)
@@ -508,7 +522,7 @@ def _inf_polygons(rt, which):
     """labels of the inf-only polygon / multipolygon rows of the right frame"""
     if which != 'full' or rt.kind not in ('polygon', 'multipolygon'):
         return set()
-    return set(l for l, c in zip(rt.full_labels, rt.cls) if c == 'inf')
+    return set(l for l, c in zip(rt.full_labels, rt.cls) if c in INF_CLASSES)
 
 
 def _check_join(cx, how, got, exp, l_inert, r_inert, where, r_infpoly=(), **extra):
@@ -895,12 +909,16 @@ def run(rep):
     rep.rule = ('per kind (7) x placement of the inert rows (first, last, a whole R-tree page, a whole '
                 'Dask partition, interleaved, all rows, random) x {arbitrary floats, integer-valued}: a '
                 'random base array of 1-7 elements with finite coordinates, inert rows drawn from the '
-                'kind\'s catalogue (None, [], [[]]-style empties, NaN-only, inf-only), built directly '
+                'kind\'s catalogue (None, [], [[]]-style empties, NaN-only, inf-only, NaN and +-inf mixed '
+                'per coordinate and per vertex), built directly '
                 'or through take(); every family of operations (array, scalar shapes, point-vs-shape, '
                 'R-tree with page sizes 1,2,3,n,512, cx with/without index, sjoin x 3 hows x sides, Dask '
                 'cx/total_bounds/sjoin/pack_partitions) recomputed with and without the inert rows; a '
                 'case is non-trivial when the base array is non-empty and at least one inert row was '
-                'inserted; distinct = distinct (kind, full element list)')
+                'inserted; distinct = distinct (kind, full element list); plus an always-run corpus: per '
+                'kind, fixed rows interleaved with EVERY element without a finite coordinate that mixes '
+                'NaN, +inf and -inf (points: all 9 mixtures) through every family, against asymmetric '
+                'shapes of each kind, sjoin with the inert rows on either side')
     trials = []
     try:
         # the kernels are tiny here: a few threads keep the parallel regions from spinning on a
@@ -910,6 +928,9 @@ def run(rep):
     except Exception:  # noqa: BLE001
         pass
     witness(rep)
+    t0 = time.time()
+    trials += mixture_corpus(rep)
+    rep.extra['mixture_corpus_wall_s'] = round(time.time() - t0, 1)
     cpu = {}
     for kind, pattern, exact, fams in plan(rep, tier):
         with_inf = rep.rng.random() < 0.3
@@ -974,6 +995,105 @@ def witness(rep):
         FAMILIES[fam](Ctx(rep, t2, fam, P2))
         rep.evaluations += 1
     rep.count('witness:all-inert-open-ends')
+
+
+# --------------------------------------------------------------------------
+# always-run corpus: every mixture of NaN / +inf / -inf, every kind, every family
+# --------------------------------------------------------------------------
+# asymmetric shapes: the winding number the ray loop computes for a point such as (-inf, NaN)
+# is the number of ascending minus descending edges it does not skip, which is non-zero for a
+# triangle like (0,0) (2,1) (1,3) and zero for an axis-parallel box
+TRI = [0.0, 0.0, 2.0, 1.0, 1.0, 3.0, 0.0, 0.0]
+TRI_R = [0.0, 0.0, 1.0, 3.0, 2.0, 1.0, 0.0, 0.0]
+QUAD = [-3.0, -2.0, 4.0, -1.0, 5.0, 5.0, -1.0, 2.0, -3.0, -2.0]
+HOLE = [0.5, 0.5, 0.5, 1.0, 1.0, 0.5, 0.5, 0.5]
+MIX_SHAPES = [('point', [0.0, 0.0]), ('point', [1.0, 1.0]),
+              ('multipoint', [0.0, 0.0, 1.0, 1.0, 5.0, 4.0]),
+              ('line', [-1.0, -1.0, 1.0, 1.0, 5.0, 4.0]), ('line', [0.0, -5.0, 0.5, 7.0]),
+              ('multiline', [[-1.0, -1.0, 1.0, 1.0], [0.0, 3.0, 5.0, 4.0, 2.0, -2.0]]),
+              ('polygon', [TRI]), ('polygon', [TRI_R]), ('polygon', [QUAD, HOLE]),
+              ('multipolygon', [[TRI]]), ('multipolygon', [[TRI_R], [[6.0, 6.0, 9.0, 7.0, 7.0, 9.0, 6.0, 6.0]]]),
+              ('multipolygon', [[QUAD, HOLE], [TRI]])]
+MIX_BASE = {
+    'point': [[0.0, 0.0], [1.0, 1.0], [1.0, 2.0], [5.0, 4.0], [0.75, 0.75], [-2.0, 3.5]],
+    'multipoint': [[0.0, 0.0, 1.0, 1.0], [5.0, 4.0], [-2.0, 3.5, 1.0, 2.0, 1.0, 2.0]],
+    'line': [[-1.0, -1.0, 1.0, 1.0], [0.0, 3.0, 5.0, 4.0, 2.0, -2.0], [6.0, 6.0, 7.0, 9.0]],
+    'ring': [TRI, QUAD, [6.0, 6.0, 9.0, 7.0, 7.0, 9.0, 6.0, 6.0]],
+    'multiline': [[[-1.0, -1.0, 1.0, 1.0], [0.0, 3.0, 5.0, 4.0]], [[6.0, 6.0, 7.0, 9.0]]],
+    'polygon': [[TRI], [QUAD, HOLE], [[6.0, 6.0, 9.0, 7.0, 7.0, 9.0, 6.0, 6.0]]],
+    'multipolygon': [[[TRI]], [[QUAD, HOLE], [[6.0, 6.0, 9.0, 7.0, 7.0, 9.0, 6.0, 6.0]]]],
+}
+MIX_BOXES = [[-1e7, -1e7, 1e7, 1e7], [0.0, 0.0, 1.0, 1.0], [-3.0, -2.0, 9.0, 9.0], [1.0, 2.0, 1.0, 2.0],
+             [0.5, 0.5, 6.5, 6.5], [9.0, 9.0, 6.0, 6.0]]
+MIX_OPEN = [[], ['x0', 'x1', 'y0', 'y1'], ['x0'], [], ['x1', 'y1'], []]
+
+
+def _mix_trial(kind, derived):
+    """the fixed base rows of the kind with every element of the mixed pool (points: all nine
+    mixtures) and a missing row interleaved; the first two rows and the last row are inert"""
+    base = MIX_BASE[kind]
+    mixed = U.mixed_pool(kind) + [None]
+    full, mask = [], []
+    # two leading inert rows, then one after each base row round-robin, the rest at the end
+    queue = list(mixed)
+    for _ in range(2):
+        full.append(queue.pop(0))
+        mask.append(True)
+    for e in base:
+        full.append(e)
+        mask.append(False)
+        if queue:
+            full.append(queue.pop(0))
+            mask.append(True)
+    while queue:
+        full.append(queue.pop(0))
+        mask.append(True)
+    return Trial(kind, base, full, mask, True, 'interleaved', 2, derived=derived)
+
+
+def mixture_corpus(rep):
+    """every element without a finite coordinate that mixes NaN, +inf and -inf (points: each of
+    the nine mixtures), of every kind, through EVERY family of operations: bounds /
+    total_bounds / measures / intersects_bounds (array, inds, scalar) / hilbert_distance, the
+    point-vs-shape predicates against asymmetric shapes of each kind (array and inds forms),
+    the R-tree, cx with and without an index, sjoin with the inert rows on the left and on the
+    right (3 hows), and the Dask versions.  Returns the trials (their integer-valued buffers
+    are also compared with Model/Inert.v)."""
+    trials = []
+    for k, kind in enumerate(G.KINDS):
+        t = _mix_trial(kind, derived=(k % 2 == 1))
+        trials.append(t)
+        if kind == 'point':
+            others = [_mix_trial(ok, derived=False) for ok in ('polygon', 'multipolygon', 'line', 'multipoint')]
+        else:
+            others = [_mix_trial('point', derived=(k % 2 == 0))]
+        for j, o in enumerate(others):
+            P = {'boxes': [list(b) for b in MIX_BOXES], 'open': [list(o_) for o_ in MIX_OPEN],
+                 'inds': [0, 1, 2, 1, 7], 'p': [5, 10, 15, 3][(k + j) % 4],
+                 'hilbert_tb': [-8.0, -8.0, 8.0, 8.0], 'cx_pages': [2, 512] if j == 0 else [1],
+                 'probe_points': [list(p) for p in MIX_BASE['point']],
+                 'sjoin_sides': ['left', 'right'], 'dask_hows': ['inner', 'left'],
+                 'shapes': list(MIX_SHAPES), 'other': o.meta(), 'pack': [2, 8] if j == 0 else None}
+            fams = ['array', 'inert_shapes', 'rtree', 'point_rows', 'cx', 'sjoin', 'dask'] if j == 0 \
+                else ['sjoin', 'dask']
+            for fam in fams:
+                if fam == 'point_rows' and kind != 'point':
+                    continue
+                if fam == 'dask' and j > 0:
+                    continue
+                cx = Ctx(rep, t, fam, P)
+                try:
+                    FAMILIES[fam](cx)
+                except Exception as e:  # noqa: BLE001  (a crash of the harness itself)
+                    rep.violation(f'harness-crash:{fam}:{type(e).__name__}',
+                                  f'family {fam} crashed: {traceback.format_exc()[-800:]}',
+                                  {**t.meta(), 'family': fam, 'params': P})
+                rep.evaluations += 1
+                rep.count(f'mixture-corpus:{fam}')
+        rep.count(f'mixture-corpus:kind:{kind}')
+        rep.nontrivial((kind, repr(t.full)))
+    rep.count('mixture-corpus:point-mixtures', len(U.point_mixtures()))
+    return trials
 
 
 def replay(rep, rp):
